@@ -8,6 +8,7 @@ written by harness/c14_mixlinear.c (one answer line per case line).
   vol <vol> <mvol> <mvolbase> <pan> <old_vl> <old_vr> <rampsize>   -> vol_l vol_r vl vr delta_l delta_r
   dlt <v> <old> <rampsize>                      -> delta
   pan <fp> <mix> <mono> <surround>              -> voice pan
+  bg <n> <map of the n background channels>     -> background channel (relative to num_tracks) libxmp_virt_setpatch moves the old voice to
   vr <member of struct mixer_voice | paula.* pseudo-member>…
                                                 -> value of each member in a freed voice (`Xmp.MixKernel.resetValue`)
   pp <pan.val> <panbrello> <pan_envelope> <rpv> <it_mode> <mono> <surround> <mix>
@@ -81,6 +82,7 @@ def answer (ws : List String) : Option String :=
     some s!"{lr.1} {lr.2} {level lr.1} {level lr.2} {rampDelta lr.1 (pInt ovl) (pInt rs)} {rampDelta lr.2 (pInt ovr) (pInt rs)}"
   | ["dlt", v, old, r] => some s!"{rampDelta (pInt v) (pInt old) (pInt r)}"
   | ["pan", fp, mix, mono, sur] => some s!"{voicePan (pInt fp) (pInt mix) (pBool mono) (pBool sur)}"
+  | "bg" :: _n :: maps => some s!"{Xmp.MixKernel.bgSearch (maps.map pInt)}"
   | "vr" :: names =>
     -- members of a free voice: `vr <member>…` -> value of each member after libxmp_virt_resetvoice (`*` = kept)
     some (" ".intercalate (names.map fun n =>
